@@ -2109,11 +2109,14 @@ for _w in ('i32', 'i64', 'isize', 'i16', 'i8'):
 
 
 # f64 classification on constants (witness evaluation of the numeric route)
-def _f64_pred(f):
+def _f64_pred(f, short):
     def m(eng, st, fr, t, args, dest, target):
         v = eng.deref_arg(st, args[0])
         if is_const(v) and isinstance(cval(v), (int, float)) and not isinstance(cval(v), bool):
             return cbool(bool(f(float(cval(v)))))
+        from .engine import F64_METHODS
+        if ('core::f64::<impl f64>::' + short) in F64_METHODS:
+            return ('app', short, tuple(args))      # the uninterpreted form the rules know (is_nan, is_finite)
         return _opaque(eng, st, t, args)
     return m
 
@@ -2129,5 +2132,5 @@ _F64_PREDS = {
     'is_sign_positive': lambda x: _math4.copysign(1.0, x) > 0,
 }
 for _n, _f in _F64_PREDS.items():
-    MODELS[f'core::f64::<impl f64>::{_n}'] = _f64_pred(_f)
-    MODELS[f'std::f64::<impl f64>::{_n}'] = _f64_pred(_f)
+    MODELS[f'core::f64::<impl f64>::{_n}'] = _f64_pred(_f, _n)
+    MODELS[f'std::f64::<impl f64>::{_n}'] = _f64_pred(_f, _n)
